@@ -36,7 +36,36 @@ def expected70(state, n, dev_wires, m):
     if m["kind"] == "mi":
         return (_entropy(state, n, dev_wires, m["wires0"]) + _entropy(state, n, dev_wires, m["wires1"])
                 - _entropy(state, n, dev_wires, list(m["wires0"]) + list(m["wires1"])))
+    if m["kind"] in ("expval_ham", "var_ham"):
+        P = {"X": np.array([[0, 1], [1, 0]], dtype=complex), "Y": np.array([[0, -1j], [1j, 0]]), "Z": np.diag([1.0 + 0j, -1.0])}
+        H = np.zeros((2 ** n, 2 ** n), dtype=complex)
+        for c, word, ws in m["terms"]:
+            fs = [np.eye(2, dtype=complex)] * n
+            for ch, w in zip(word, ws):
+                fs[dev_wires.index(w)] = fs[dev_wires.index(w)] @ P[ch]
+            T = np.array([[1.0 + 0j]])
+            for f in fs:
+                T = np.kron(T, f)
+            H = H + c * T
+        psi = np.asarray(state).reshape(-1)
+        e1 = np.vdot(psi, H @ psi).real
+        return e1 if m["kind"] == "expval_ham" else float(np.vdot(psi, H @ (H @ psi)).real - e1 * e1)
     return expected(state, n, dev_wires, m)
+
+
+def tableau_error(tab, state, n):
+    """max | <psi| (-1)^s P_r |psi> - 1 | over the stabilizer rows r = n..2n-1 of a (2n) x (2n+1) tableau [x | z | sign]"""
+    tab = np.asarray(tab).reshape(2 * n, 2 * n + 1)
+    X = np.array([[0, 1], [1, 0]], dtype=complex); Z = np.diag([1.0 + 0j, -1.0]); Y = np.array([[0, -1j], [1j, 0]])
+    psi = np.asarray(state).reshape(-1)
+    worst = 0.0
+    for r in range(n, 2 * n):
+        T = np.array([[1.0 + 0j]])
+        for q in range(n):
+            x, z = int(round(tab[r, q])), int(round(tab[r, n + q]))
+            T = np.kron(T, [[np.eye(2), Z], [X, Y]][x][z])
+        worst = max(worst, abs((-1) ** int(round(tab[r, 2 * n])) * np.vdot(psi, T @ psi).real - 1.0))
+    return worst
 
 
 def chi2_sf(x, k):
@@ -82,6 +111,12 @@ def run(ctx):
     nsamp = 0
     for r, st in zip(okruns, states):
         for m, res in zip(r["meas"], r["results"]):
+            if m["kind"] == "tableau":
+                err = tableau_error(arr(res), st, r["n"])
+                if err > 1e-6:
+                    ctx.violation("tableau:" + json.dumps(r["ops"])[:300], {"ops": r["ops"], "tableau": res, "err": err},
+                                  what="a stabilizer row (with its sign) of the tableau returned by default.clifford(tableau=True) does not stabilize the exact state")
+                continue
             got, exp = arr(res), expected70(st, r["n"], r["dev_wires"], m)
             if m["kind"] == "state":      # global phase of a stabilizer state vector is not fixed by the tableau
                 ov = abs(np.vdot(np.asarray(exp), np.asarray(got)))
